@@ -276,6 +276,26 @@ def big_payloads(res):
                 continue
             if bytes(back) != data or bytes(back2) != data:
                 res.violation(f"C02:big-payload:{kind}", f"{kind} payload of {size} bytes comes back with {len(back)} / {len(back2)} bytes (clone / project) or different content", desc)
+    # the written file read back through every kind of stream an application may hold it in (payloads of 64 KiB .. 300 KiB)
+    import os
+    import shutil
+    import tempfile
+    tdir = tempfile.mkdtemp(prefix="rvmon-c02-", dir=os.environ.get("TMPDIR", "/var/tmp"))
+    try:
+        for size, kind in ((65536, "vorbis"), (307200, "vorbis"), (65535, "sample"), (200000, "sample")):
+            data = bytes((i * 17 + 3) & 0xFF for i in range(size))
+            if kind == "vorbis":
+                m = api.m.VorbisPlayer()
+                m.data = data
+            else:
+                m = api.m.Sampler()
+                s = m.Sample()
+                s.data, s.format, s.channels = data, m.Format.int8, m.Channels.mono
+                m.samples[0] = s
+            workload.loads_through_streams_and_names(res, "C02", api.Synth(m).read(), lambda o: build.norm(snapshot.snap_synth(o), "after"),
+                                                     {"big_payload": kind, "bytes": size}, tdir, kinds=("buffered", "unbuffered", "read-write", "mmap", "gzip.open", "bz2.open", "lzma.open", "pipe", "socket"))
+    finally:
+        shutil.rmtree(tdir, ignore_errors=True)
 
 
 def empty_synth(res):
